@@ -218,6 +218,47 @@ Fixpoint match_groups (log : list cb) (gs : list (list cb)) : bool :=
   | g :: gs => cperm_b (firstn (length g) log) g && match_groups (skipn (length g) log) gs
   end.
 
+Definition nil_b {A} (l : list A) : bool := match l with [] => true | _ => false end.
+
+(* ---- a postponed callback that raises ------------------------------------------------ *)
+(* Harness doubles: the lifecycle callbacks of the instances numbered >= 1000
+   raise a marker exception (kind 3) when they are invoked by the release of
+   postponed events, after having logged the call. *)
+Definition raises (i : Z) : bool := 1000 <=? i.
+Definition lc_kind (k : ck) : bool := match k with CAdd | CRem => true | _ => false end.
+
+Definition rmatch (k : ck) (i e : Z) (x : qent) : bool :=
+  match x with QRelay k' i' e' => ck_eqb k k' && (i =? i') && (e =? e') | QProbeE _ => false end.
+Fixpoint rtake1 (k : ck) (i e : Z) (g : list qent) : option (list qent) :=
+  match g with
+  | [] => None
+  | x :: g => if rmatch k i e x then Some g
+              else match rtake1 k i e g with Some g' => Some (x :: g') | None => None end
+  end.
+(* the event popped next belongs to the oldest operation that still has one *)
+Fixpoint rtake (k : ck) (i e : Z) (gs : list (list qent)) : option (list (list qent)) :=
+  match gs with
+  | [] => None
+  | [] :: gs => rtake k i e gs
+  | g :: gs => match rtake1 k i e g with Some g' => Some (g' :: gs) | None => None end
+  end.
+(* the setter pops an event, then delivers it: when the callback raises, that
+   event and all before it have left the queue, the others are still there.
+   The log ends with the raising call. *)
+Fixpoint release_raise (gs : list (list qent)) (log : list cb) : option (list (list qent)) :=
+  match log with
+  | [] => None
+  | c :: log' =>
+      if lc_kind (c_k c) && c_w c then
+        match rtake (c_k c) (c_i c) (c_a c) gs with
+        | None => None
+        | Some gs' =>
+            if raises (c_i c) then (if nil_b log' then Some gs' else None)
+            else release_raise gs' log'
+        end
+      else None
+  end.
+
 (* ---- read side (after the operation) --------------------------------------- *)
 Definition qcheck (s : st) (q : qobs) : bool :=
   match q with
@@ -229,7 +270,6 @@ Definition qcheck (s : st) (q : qobs) : bool :=
 
 Definition oz_eqb (a b : option Z) : bool :=
   match a, b with Some x, Some y => x =? y | None, None => true | _, _ => false end.
-Definition nil_b {A} (l : list A) : bool := match l with [] => true | _ => false end.
 
 (* acceptor bookkeeping: while disabled every operation opens its own group *)
 Definition open_group (s : st) : st :=
@@ -325,9 +365,20 @@ Definition step_op (p : params) (s : st) (o : op) (ob : obs) : option st :=
   | SetEnabled false =>
       if (o_exc ob =? 0) && nil_b (o_log ob) then Some (set_enabled s false) else None
   | SetEnabled true =>
+      (* self._dispatch_enabled = True; while queue and enabled: pop(0), dispatch *)
       let s := set_enabled s true in
-      let gs := map (flat_map (deliver p s)) (queue s) in
-      if (o_exc ob =? 0) && match_groups (o_log ob) gs then Some (set_queue s []) else None
+      if o_exc ob =? 3 then
+        if selfl s then
+          match release_raise (queue s) (o_log ob) with
+          | Some q => Some (set_queue s q)
+          | None => None
+          end
+        else None
+      else
+        let gs := map (flat_map (deliver p s)) (queue s) in
+        if (o_exc ob =? 0) && match_groups (o_log ob) gs
+           && forallb (fun c => negb (lc_kind (c_k c) && raises (c_i c))) (o_log ob)
+        then Some (set_queue s []) else None
   | Probe tok =>
       if negb (pkey s) then          (* if event_name not in self._events: return *)
         if (o_exc ob =? 0) && nil_b (o_log ob) then Some s else None
